@@ -226,6 +226,58 @@ def r02_5(ctx, rep):
             rep.ob("R02.5", SITE_PARSE, "call:" + norm(n.ast)[:60], True, "_parse runs with no transaction open")
 
 
+@SPEC.rule("R02.6", "waiting instead of failing: no sqlite3.connect passes a busy timeout below SQLite's 5 s default (timeout=0 makes every lock conflict an immediate 'database is locked')")
+def r02_6(ctx, rep):
+    mod = ctx.module(PARSER)
+    n = 0
+    for c in ast.walk(mod):
+        if isinstance(c, ast.Call) and call_name(c) == "sqlite3.connect":
+            n += 1
+            t = kwarg(c, "timeout")
+            if t is None and len(c.args) >= 2:
+                t = c.args[1]
+            v = literal(t) if t is not None else None
+            ok = t is None or (isinstance(v, (int, float)) and v >= 5)
+            rep.ob("R02.6", PARSER + ":connect#%d" % n, "timeout " + (norm(t) if t is not None else "default"), ok,
+                   "a busy timeout of %s lets concurrent parse() calls fail with 'database is locked' instead of waiting" % (norm(t) if t is not None else "default"))
+    if n < 2:
+        raise AnalysisError("R02.6", "fewer than 2 sqlite3.connect calls found")
+
+
+@SPEC.rule(
+    "R02.7",
+    "the handler that deletes the database file guards only the integrity check: no BEGIN and no write statement may "
+    "run inside the try whose handler removes the file (a lock conflict there would delete a database another call is using)",
+)
+def r02_7(ctx, rep):
+    pc, info_s, info_p = _run(ctx, rep)
+    fn = pc.parse_fn
+    n = 0
+    for t in ast.walk(fn):
+        if isinstance(t, ast.Try) and any(call_name(c) in ("os.remove", "os.unlink") for h in t.handlers for s in h.body for c in calls(s)):
+            n += 1
+            bad = []
+            for s in t.body:
+                for c in calls(s):
+                    m = method_name(c)
+                    if m == "execute" and c.args:
+                        sql = const_str(c.args[0]) or ""
+                        from ..sqlfacts import classify
+
+                        k, d = classify(sql)
+                        if k in ("begin", "write"):
+                            bad.append(sql_norm(sql)[:40])
+                    elif isinstance(c.func, ast.Name) and c.func.id.startswith("_check"):
+                        bad.append(c.func.id + "()")
+                    elif m == "commit":
+                        bad.append("commit()")
+            rep.ob("R02.7", SITE_PARSE, "try guarded by the file-removing handler", not bad,
+                   "statements %s run under the handler that deletes the cache file: contention on them (OperationalError is a "
+                   "DatabaseError) would remove the database while another parse() is using it" % bad)
+    if n < 1:
+        raise AnalysisError("R02.7", "no handler removing the database file found")
+
+
 # -- seeded variants ---------------------------------------------------------
 from ._mut import delete_stmt_where, replace_const_str, replace_in_func  # noqa: E402
 
@@ -269,6 +321,30 @@ def _m_parse_in_txn(mod):
                     if isinstance(m, ast.If) and norm(m.test) == "tree is not None":
                         m.body = [s for s in m.body if not (isinstance(s, ast.Expr) and "BEGIN" in norm(s))]
                         m.orelse = [ast.parse("conn.commit()").body[0]]
+                return True
+        return False
+
+    return mod if replace_in_func(mod, "parse", edit) else None
+
+
+@SPEC.mutant("busy timeout 0", PARSER, "R02.6", "timeout")
+def _m_timeout(mod):
+    def edit(fn):
+        for c in ast.walk(fn):
+            if isinstance(c, ast.Call) and call_name(c) == "sqlite3.connect":
+                c.keywords.append(ast.keyword(arg="timeout", value=ast.Constant(value=0)))
+                return True
+        return False
+
+    return mod if replace_in_func(mod, "parse", edit) else None
+
+
+@SPEC.mutant("structure check moved under the file-removing handler", PARSER, "R02.7", "")
+def _m_struct_in_try(mod):
+    def edit(fn):
+        for t in ast.walk(fn):
+            if isinstance(t, ast.Try) and any(call_name(c) == "os.remove" for h in t.handlers for s_ in h.body for c in calls(s_)):
+                t.body.append(ast.parse("_check_database_structure(conn)").body[0])
                 return True
         return False
 
